@@ -1,5 +1,6 @@
-Require Import Verif.Model.C01.
+Require Import Verif.Model.C01 Verif.Gen.Prog_C01.
 Require Extraction.
 Require Import ExtrOcamlBasic.
-Definition run := run_C01.
+(* the runner answers with the program REGENERATED from the source on this run *)
+Definition run := run_C01_with gen_connect gen_call.
 Extraction "C01_model.ml" run.
